@@ -147,21 +147,21 @@ func Format(input []byte) []byte {
 		// if we're in a heredoc, all characters are read&write as-is
 		if heredoc == heredocOpened {
 			heredocClosingMarker = append(heredocClosingMarker, ch)
-			if len(heredocClosingMarker) > len(heredocMarker)+1 { // We assert that the heredocClosingMarker is followed by a unicode.Space
+			if len(heredocClosingMarker) > len(heredocMarker) {
 				heredocClosingMarker = heredocClosingMarker[1:]
 			}
-			// check if we're done
-			if unicode.IsSpace(ch) && slices.Equal(heredocClosingMarker[:len(heredocClosingMarker)-1], heredocMarker) {
+			write(ch)
+			// check if we're done: like in the lexer, the heredoc ends with the
+			// first occurrence of the marker, and a new token may start right after it
+			if slices.Equal(heredocClosingMarker, heredocMarker) {
 				heredocMarker = nil
 				heredocClosingMarker = nil
 				heredoc = heredocClosed
-			} else {
-				write(ch)
-				if ch == '\n' {
-					heredocClosingMarker = heredocClosingMarker[:0]
-				}
-				continue
+				tokenEnded = true
+			} else if ch == '\n' {
+				heredocClosingMarker = heredocClosingMarker[:0]
 			}
+			continue
 		}
 
 		if comment {
